@@ -315,3 +315,41 @@ def sym_word(n, terminals, tag="w"):
     ts = sorted(terminals)
     cons = [z3.Or(*[x == t for t in ts]) for x in w] if ts else []
     return w, cons
+
+
+def perturbed_twin(cfg, n_bound, fresh_terminal=99999):
+    """a copy of cfg in which ONE rule on a shortest derivation has its first terminal replaced by a fresh terminal.
+    Returns (twin, expect_sat): if a sentence of length <= n_bound uses that rule, cfg and twin must be distinguishable."""
+    g = cfg.trimmed()
+    ml = g.minlen()
+    by = {}
+    for i, (l, r) in enumerate(g.rules):
+        by.setdefault(l, []).append(i)
+
+    def body_len(r):
+        t = 0
+        for k, v in r:
+            t += 1 if k == "T" else ml.get(v, 10 ** 9)
+        return t
+    # follow a shortest derivation from the start symbol, leftmost
+    cur = g.start
+    seen = set()
+    while cur not in seen:
+        seen.add(cur)
+        cands = [i for i in by.get(cur, []) if body_len(g.rules[i][1]) == ml.get(cur)]
+        if not cands:
+            break
+        i = cands[0]
+        l, r = g.rules[i]
+        tpos = [j for j, (k, v) in enumerate(r) if k == "T"]
+        if tpos:
+            rules = list(g.rules)
+            rr = list(r)
+            rr[tpos[0]] = ("T", fresh_terminal)
+            rules[i] = (l, rr)
+            return CFG(rules, g.start), ml.get(g.start, 10 ** 9) <= n_bound
+        nxt = [v for k, v in r if k == "N"]
+        if not nxt:
+            break
+        cur = nxt[0]
+    return None, False
